@@ -62,7 +62,14 @@ def check(ctx, src):
     tt = flat(sc)
     ctx.check(isinstance(g, ast.If) and norm(g.test) == "_could_be_hy_src(path)" and "data = hy_compile(hy_tree, module)" in tt and isinstance(sc.body[-1], ast.Return) and "_py_source_to_code(self, data, path" in norm(sc.body[-1]).replace("\n", ""),
               "HY-OR-PY", f"{IM}|_hy_source_to_code|structure", "Hy compilation must happen exactly under _could_be_hy_src(path) and every path must end in Python's source_to_code", IM, sc.lineno, detail="if hy: compile; return _py_source_to_code(...)")
-    ctx.check("read_many(source, filename=path, skip_shebang=True, reader=HyReader())" in tt and "with loader_module_obj(self) as module:" in tt, "HY-OR-PY", f"{IM}|_hy_source_to_code|reading", "the module must be read with a fresh reader and compiled against the loader's module object", IM, sc.lineno, detail="fresh reader; loader_module_obj")
+    rmc = pyq.contains(sc, lambda n: isinstance(n, ast.Call) and dotted(n.func) == "read_many")
+    kws = {k.arg: norm(k.value) for k in rmc.keywords} if rmc is not None else {}
+    hcc = pyq.contains(sc, lambda n: isinstance(n, ast.Call) and dotted(n.func) == "hy_compile" and len(n.args) >= 2)
+    wth = next((w for w in ast.walk(sc) if isinstance(w, ast.With) and any(dotted(getattr(it.context_expr, "func", None)) == "loader_module_obj" for it in w.items)), None)
+    asv = next((it.optional_vars.id for it in wth.items if isinstance(it.optional_vars, ast.Name)), None) if wth is not None else None
+    okr = rmc is not None and kws.get("skip_shebang") == "True" and kws.get("reader") == "HyReader()" and kws.get("filename") == "path"
+    okc = hcc is not None and wth is not None and any(hcc is x for x in ast.walk(wth)) and isinstance(hcc.args[1], ast.Name) and hcc.args[1].id == asv
+    ctx.decide("HY-OR-PY", f"{IM}|_hy_source_to_code|reading", None if (rmc is None or hcc is None) else (okr and okc), "the module must be read with a fresh reader and compiled against the loader's module object", IM, sc.lineno, detail="read_many(reader=HyReader()); hy_compile(tree, module) inside loader_module_obj")
     ins = [n for n in im.tree.body if isinstance(n, ast.Expr) and norm(n) == "importlib.machinery.SOURCE_SUFFIXES.insert(0, '.hy')"]
     patch = [n for n in im.tree.body if isinstance(n, ast.Assign) and norm(n) == "importlib.machinery.SourceFileLoader.source_to_code = _hy_source_to_code"]
     ctx.check(len(ins) == 1 and len(patch) == 1, "HY-OR-PY", f"{IM}|installation", ".hy must be registered as a source suffix and source_to_code patched", IM, 0, detail="suffix + patch")
